@@ -279,8 +279,9 @@ type compatibilityQuery struct {
 	t      QueryType
 
 	// Cancel and Close may be called from other goroutines than Exec.
-	cancelMu sync.Mutex
-	cancel   context.CancelFunc
+	cancelMu  sync.Mutex
+	cancel    context.CancelFunc
+	cancelled bool
 }
 
 func (q *compatibilityQuery) Exec(ctx context.Context) (ret *promql.Result) {
@@ -295,6 +296,10 @@ func (q *compatibilityQuery) Exec(ctx context.Context) (ret *promql.Result) {
 	defer cancel()
 	q.cancelMu.Lock()
 	q.cancel = cancel
+	if q.cancelled {
+		// Cancel or Close overtook the start of Exec.
+		cancel()
+	}
 	q.cancelMu.Unlock()
 
 	resultSeries, err := q.Query.exec.Series(ctx)
@@ -454,6 +459,7 @@ func (q *compatibilityQuery) Cancel() {
 	q.cancelMu.Lock()
 	cancel := q.cancel
 	q.cancel = nil
+	q.cancelled = true
 	q.cancelMu.Unlock()
 	if cancel != nil {
 		cancel()
